@@ -126,13 +126,15 @@ func (p *Polygon) arcVertex(i int) bool {
 	if v.vtype != pvArc {
 		return false
 	}
-	// now it's a normal vertex
-	v.vtype = pvNormal
 	// check for the previous vertex
 	pv := p.prevVertex(i)
 	if pv == nil {
+		// The first vertex of a polygon that is not closed (yet): the segment it
+		// ends does not exist. Leave it as it is, the polygon may be closed later.
 		return false
 	}
+	// now it's a normal vertex
+	v.vtype = pvNormal
 	// The sign of the radius indicates which side of the chord the arc is on.
 	side := Sign(v.radius)
 	radius := math.Abs(v.radius)
